@@ -298,6 +298,11 @@ def r15f(ck, fb):
     ck.require(len(own) >= 1 and len(ap) >= 1, 'R15f', 'build_snapshot_data:owner-http-part', b.where(), 'the per-service part no longer comes from get_owner_http_instances')
     for s in own:
         ok = any(a[0] == 'call' and (a[1] or '').endswith('ProcessRange::is_range_at_list') and a[2] is True for a in cfg.guard_atoms(b, s.bb))
+        if not ok:
+            # iterator form: the loop runs over `.filter(|..| is_range_at_list(..))`
+            flt = [c for c in fb.tree(b.name)[1:] if c.calls(r'ProcessRange::is_range_at_list$')]
+            nx = [x for x in b.calls(r'Iterator>::next$') if cfg.dominates_blocks(b, {x.bb}, s.bb) and 'Filter<' in ' '.join(x.gargs or []) + (x.full or '')]
+            ok = bool(flt) and bool(nx)
         ck.require(ok, 'R15f', 'build_snapshot_data:range-filter', s.where(), 'services outside the requested ranges are put into the snapshot')
 
 
